@@ -315,11 +315,8 @@ func runC19(r *ev.Run) {
 	var subsets [][]string
 	n := len(names)
 	if r.Thorough() {
-		for mask := 0; mask < 1<<n; mask += 1 {
-			if mask%8 != int(r.Seed%8) && bitsSet(mask) > 3 && bitsSet(mask) < n-3 {
-				continue // thorough: all small and large subsets, one eighth of the middle ones per seed
-			}
-			subsets = append(subsets, maskNames(names, mask))
+		for mask := 0; mask < 1<<n; mask++ {
+			subsets = append(subsets, maskNames(names, mask)) // every subset of the groups
 		}
 	} else {
 		for mask := 0; mask < 1<<n; mask++ {
@@ -352,7 +349,7 @@ func runC19(r *ev.Run) {
 	r.Set("coefficient_groups", n)
 	r.Set("coefficients", total)
 	r.Set("subsets_checked", vec.Load())
-	r.Set("rule", "positions of the listed classes (half-move clock rotating through 0..100), tree nodes below the root corpus and full boards with promoted material, loaded with ParseFEN (no hash) as the tuner does: |EngineRep.Eval - white-relative Eval[Score]| < 2.25; vector mapping for subsets of the coefficient groups (quick: all subsets of size <=2 and >= n-2 and DefaultTargets; thorough: all small/large subsets and a seed-selected eighth of the rest), every coefficient holding its own ordinal: ToVector lists exactly the targeted ordinals in order, SetVector/ToVector is the identity and leaves other fields alone, TunedParams index i addresses vector element i only; non-trivial = positions with non-zero evaluation")
+	r.Set("rule", "positions of the listed classes (half-move clock rotating through 0..100), tree nodes below the root corpus and full boards with promoted material, loaded with ParseFEN (no hash) as the tuner does: |EngineRep.Eval - white-relative Eval[Score]| < 2.25; vector mapping for subsets of the coefficient groups (quick: all subsets of size <=2 and >= n-2 and DefaultTargets; thorough: every one of the 2^n subsets), every coefficient holding its own ordinal: ToVector lists exactly the targeted ordinals in order, SetVector/ToVector is the identity and leaves other fields alone, TunedParams index i addresses vector element i only; non-trivial = positions with non-zero evaluation")
 }
 
 func bitsSet(m int) int {
